@@ -795,7 +795,9 @@ func (v *Verifier) emitAxioms(c *Ctx, pkgPath string) {
 		if err != nil {
 			unsup("axiom %s: %v", n, err)
 		}
+		c.flush()
 		c.assume(t)
+		c.axiomLine[len(c.lines)-1] = true
 		tr := "axiom " + n
 		if lm.Trust != "" {
 			tr = lm.Trust + ": " + tr
